@@ -665,6 +665,11 @@ def rule_scheduler_run(rep, repo, tier):
       dict(start=1, finish=7, freq_type="step", update_freq=3,
            use_ste=False),
       dict(start=4, finish=4, freq_type="epoch"),
+      # resumed training: the position is not a multiple of update_freq
+      dict(start=4, finish=9, freq_type="step", update_freq=3,
+           initial_step_or_epoch=2),
+      dict(start=3, finish=8, freq_type="epoch", update_freq=2,
+           initial_step_or_epoch=1, exponent=1.0),
   ]
   if tier == "thorough":
     scen += [dict(start=0, finish=9, freq_type="step", exponent=0.5),
